@@ -49,7 +49,11 @@ def units():
     # substrate / well pins are commonly written with a leading underscore; `name` is an Instance keyword
     EU = h.ExternalModule(name="UU", port_list=[h.Inout(name="a"), h.Inout(name="z"), h.Inout(name="_sub"),
                                                 h.Inout(name="name")], desc="", domain="u")
-    return [("R", lambda: h.R(r=1), ["p", "n"]), ("Nmos", lambda: h.Nmos(), ["d", "g", "s", "b"]),
+    # ports called like the objects Series itself creates (its internal net `i`, its instance array `units`)
+    EI = h.ExternalModule(name="UI", port_list=[h.Inout(name="i"), h.Inout(name="o"), h.Inout(name="units")], desc="",
+                          domain="u")
+    return [("EI", lambda: EI(), ["i", "o", "units"]),
+            ("R", lambda: h.R(r=1), ["p", "n"]), ("Nmos", lambda: h.Nmos(), ["d", "g", "s", "b"]),
             ("E3", lambda: E3(), ["a", "b", "c"]), ("Mod", lambda: Mod, ["x", "y"]),
             ("EU", lambda: EU(), ["a", "z", "_sub"])]
 
@@ -211,6 +215,25 @@ def check_misc(case):
                 if insts[0].conns.get(pn) is not got[pn]:
                     return ("wrapper.wiring", f"Wrapper({target}): inner.{pn} is not wired to the wrapper's {pn}", w)
             h.to_proto(wr)
+        # nser == 1 is "a plain wrapper of the unit": all of its ports, bundle-valued ones included
+        inner2 = h.Module(name="Winner2")          # a fresh (not yet elaborated) unit with a bundle-valued port
+        inner2.a = h.Input(width=3)
+        inner2.o = h.Output()
+        inner2.b = WB(port=True)
+        inner2.e = h.ExternalModule(name="W5b", port_list=[h.Inout(name="p", width=3), h.Inout(name="q"), h.Inout(name="r"),
+                                                          h.Inout(name="s", width=2)], desc="", domain="w")()(
+            p=inner2.a, q=inner2.o, r=inner2.b.x, s=inner2.b.y)
+        from hdl21.instantiable import io as _io
+        want1 = sorted(_io(inner2))
+        one = Series(unit=inner2, conns=("a", "o"), nser=1)
+        got1 = dict(list(one.ports.items()) + list(one.bundle_ports.items()))
+        if sorted(got1) != want1:
+            return ("series.nser1-ports", f"Series(nser=1) over a unit with a bundle port exposes {sorted(got1)}, the unit "
+                                          f"has {want1}", w)
+        try:
+            h.to_proto(one)
+        except Exception as e:
+            return (f"export.raises.{type(e).__name__}", f"Series(nser=1) over a unit with a bundle port: {str(e)[-140:]}", w)
     return None
 
 
